@@ -719,7 +719,7 @@ def run(chk):
     ]
     chk.trusted_base = [
         "Lean 4.33.0 kernel",
-        "hand-written model lean/MontePyVerif/Model/Write.lean, tied to the code by the generated table Gen/WriteOrder.lean (statement order of write_to_file, guards and os calls of MCNP_InputFile, AST of the working tree) and by the U-write correspondence of this run",
+        "hand-written model lean/MontePyVerif/Model/Write.lean, tied to the code by the generated table Gen/WriteOrder.lean (segment order of write_to_file observed by running the working tree's writer on a probe problem; guards and os calls of MCNP_InputFile) and by the U-write correspondence of this run",
         "Spec/Blocks.lean as a reading of the MCNP manual's block rules (message block, title, three blocks, blank line delimiters, nothing read after the terminator)",
         "harness tools/props/c15.py and tools/vlib/faultfs.py (real file system in a scratch directory; faults injected by patching open/os.open/os.replace and the object's bound method)",
     ]
